@@ -47,13 +47,12 @@ class TruncateStringFilter:
                 yield ttype, value
                 continue
 
-            if value[:2] == "''":
-                inner = value[2:-2]
-                quote = "''"
-            else:
-                inner = value[1:-1]
-                quote = "'"
-
+            inner = value[1:-1]
             if len(inner) > self.width:
-                value = ''.join((quote, inner[:self.width], self.char, quote))
+                # never cut an escape sequence ('' or a backslash and the
+                # character behind it) in half
+                end = 0
+                while end < self.width:
+                    end += 2 if inner[end] in "'\\" else 1
+                value = ''.join(("'", inner[:end], self.char, "'"))
             yield ttype, value
